@@ -1698,16 +1698,20 @@ class HypervolumeFitnessEvaluator(FitnessEvaluator):
             return self.hypervolume(solution2, solution1, problem.nobjs)
 
     def hypervolume(self, solution1, solution2, d):
+        maximize = solution1.problem.directions[d-1] == Direction.MAXIMIZE
         a = solution1.normalized_objectives[d-1]
 
+        if maximize:
+            a = 1.0 - a
+
         if solution2 is None:
+            # the reference point rho lies beyond the nadir whatever the direction
             b = self.rho
         else:
             b = solution2.normalized_objectives[d-1]
 
-        if solution1.problem.directions[d-1] == Direction.MAXIMIZE:
-            a = 1.0 - a
-            b = 1.0 - b
+            if maximize:
+                b = 1.0 - b
 
         if d == 1:
             if a < b:
